@@ -87,6 +87,10 @@ func JSONWriteIntProp(b *[]byte, n string, d int64) (notEmpty bool) {
 	return JSONWriteProp(b, n, []byte(fmt.Sprintf("%d", d)))
 }
 
+func JSONWriteUintProp(b *[]byte, n string, d uint64) (notEmpty bool) {
+	return JSONWriteProp(b, n, strconv.AppendUint(nil, d, 10))
+}
+
 func JSONWriteFloatProp(b *[]byte, n string, f float64) (notEmpty bool) {
 	if math.IsNaN(f) || math.IsInf(f, 0) {
 		// JSON has no representation for these
@@ -444,10 +448,10 @@ func JSONWriteLinkValue(b *[]byte, l Link) (notEmpty bool) {
 		notEmpty = JSONWriteProp(b, "rel", v) || notEmpty
 	}
 	if l.Height > 0 {
-		notEmpty = JSONWriteIntProp(b, "height", int64(l.Height))
+		notEmpty = JSONWriteUintProp(b, "height", uint64(l.Height))
 	}
 	if l.Width > 0 {
-		notEmpty = JSONWriteIntProp(b, "width", int64(l.Width))
+		notEmpty = JSONWriteUintProp(b, "width", uint64(l.Width))
 	}
 	if l.Preview != nil {
 		notEmpty = JSONWriteItemProp(b, "preview", l.Preview) || notEmpty
